@@ -98,6 +98,18 @@ def make(case):
         ctx.check("pointer arithmetic yields a pointer of the same type on the same stream",
                   q.__class__ is p.__class__ and q._stream is p._stream)
         ctx.check("pointer arithmetic adds to the address", q == addr + k)
+        import operator as _op
+        kk = k + 1
+        for name, fn in (("-", _op.sub), ("*", _op.mul), ("//", _op.floordiv), ("%", _op.mod), ("<<", _op.lshift), (">>", _op.rshift),
+                         ("&", _op.and_), ("^", _op.xor), ("|", _op.or_)):
+            try:
+                r = fn(p, kk)
+            except Exception as e:  # noqa: BLE001
+                ctx.check(f"pointer {name} int works", False, H.classify(e))
+                continue
+            ctx.check(f"pointer {name} int: same pointer type on the same stream (and context)",
+                      r.__class__ is p.__class__ and r._stream is p._stream and r._context is p._context)
+            ctx.check(f"pointer {name} int: value", r == fn(addr, kk))
         if TT[0] not in ("int", "enum"):
             return
         try:
@@ -155,7 +167,39 @@ def make_nostream(case):
     return run
 
 
+def make_width_history(case):
+    """The pointer width follows the configuration at the time a pointer type is made, for targets seen before as well."""
+    first, second, endian, compiled = case["first"], case["second"], case["endian"], case["compiled"]
+
+    def run(ctx):
+        from dissect.cstruct import cstruct
+        cs = cstruct(endian=endian, pointer=first)
+        cs.load("struct A { uint8 *p; uint16 *w; uint8 t; };", compiled=compiled)
+        cs.pointer = cs.resolve(second)
+        cs.load("struct B { uint8 *q; uint8 t; uint16 *w[2]; };", compiled=compiled)
+        w1, w2 = G.PTR_BYTES[first], G.PTR_BYTES[second]
+        ctx.check("pointer declared before the change keeps the width it was declared with", len(cs.A) == 2 * w1 + 1, f"{len(cs.A)}")
+        ctx.check("pointer declared after the change has the configured width", len(cs.B) == 3 * w2 + 1, f"{len(cs.B)} vs {3 * w2 + 1}")
+        data = ctx.bytes("b", 3 * w2 + 3)
+        s = ctx.stream(data)
+        try:
+            v = cs.B.read(s)
+        except Exception as e:  # noqa: BLE001
+            ctx.check("structure declared after the change parses", False, H.classify(e))
+            return
+        big = endian == ">"
+        ctx.check("pointer value = unsigned integer of the configured width", v.q == R.decode_int(data, 0, w2, False, big))
+        ctx.check("following field read right after the pointer", v.t == data[w2])
+        ctx.check("consumed", s.tell() == 3 * w2 + 1)
+    return run
+
+
 def cases(tier, seed):
+    for first, second in (("uint16", "uint32"), ("uint64", "uint8"), ("uint8", "uint64"), ("uint32", "uint16")):
+        for endian in "<>":
+            for compiled in (False, True):
+                yield {"label": f"width-history {first}->{second}", "first": first, "second": second, "endian": endian, "compiled": compiled,
+                       "make": "make_width_history"}
     for tname, TT in TARGETS:
         for ptr in ("uint8", "uint16", "uint32", "uint64"):
             for endian in "<>":
